@@ -118,6 +118,23 @@ func (r *c21Reads) CopyObject(ctx context.Context, sb storage.BucketName, sk sto
 	return
 }
 
+func (r *c21Reads) CreateMultipartUpload(ctx context.Context, b storage.BucketName, k storage.ObjectKey, ct *string, ckt *string, o *storage.CreateMultipartUploadOptions) (res *storage.InitiateMultipartUploadResult, err error) {
+	r.await(func() { res, err = r.Storage.CreateMultipartUpload(ctx, b, k, ct, ckt, o) })
+	return
+}
+func (r *c21Reads) UploadPart(ctx context.Context, b storage.BucketName, k storage.ObjectKey, u storage.UploadId, n int32, d io.Reader, ck *storage.ChecksumInput) (res *storage.UploadPartResult, err error) {
+	r.await(func() { res, err = r.Storage.UploadPart(ctx, b, k, u, n, d, ck) })
+	return
+}
+func (r *c21Reads) CompleteMultipartUpload(ctx context.Context, b storage.BucketName, k storage.ObjectKey, u storage.UploadId, ck *storage.ChecksumInput, o *storage.CompleteMultipartUploadOptions) (res *storage.CompleteMultipartUploadResult, err error) {
+	r.await(func() { res, err = r.Storage.CompleteMultipartUpload(ctx, b, k, u, ck, o) })
+	return
+}
+func (r *c21Reads) AbortMultipartUpload(ctx context.Context, b storage.BucketName, k storage.ObjectKey, u storage.UploadId) (err error) {
+	r.await(func() { err = r.Storage.AbortMultipartUpload(ctx, b, k, u) })
+	return
+}
+
 var c21Current = map[*world.World]*c21Reads{}
 
 func c21Under(w *world.World) storage.Storage {
@@ -180,6 +197,7 @@ func c21Alphabet(m *sx.Model, stack string) []sx.Op {
 				sx.Op{Kind: "Put", B: bn, K: k, Body: "c", Opt: map[string]string{"ifm": "cur"}},
 				sx.Op{Kind: "Delete", B: bn, K: k},
 				sx.Op{Kind: "Get", B: bn, K: k},
+				sx.Op{Kind: "Mpu", B: bn, K: k, Parts: []string{"a", "b"}, Opt: map[string]string{"ifnm": "*"}},
 			)
 		}
 	}
